@@ -260,10 +260,14 @@ func zzFullSession() (bus.Server, *Session, *int32) {
 // C19Full: goroutines concurrently ask one real session for proxies (by name) and for objects (by
 // reference) of the directory service: every request succeeds with a proxy that works (a call through
 // it is answered), the process does not crash (no unsynchronised map access), one connection is held.
-func C19Full()       { c19Full(false) }
-func C19MultiHomed() { c19Full(true) }
+func C19Full()       { c19Full(false, 2) }
+func C19MultiHomed() { c19Full(true, 2) }
 
-func c19Full(multiHomed bool) {
+// C19ThreeRequests: three goroutines ask for the SAME proxy at the same moment (whatever the session does
+// to spare duplicate work between simultaneous requests must wake every one of them).
+func C19ThreeRequests() { c19Full(false, 3) }
+
+func c19Full(multiHomed bool, n int) {
 	sym.Schedules(false) // the set-up (server start, session establishment) runs under the default schedule
 	srv, s, _ := zzFullSession()
 	if s == nil {
@@ -284,7 +288,6 @@ func c19Full(multiHomed bool) {
 	sym.Assert(s.Directory.UpdateServiceInfo(info) == nil, "full/multi-service-updated")
 	s.updateServiceList()
 	sym.Schedules(true)
-	const n = 2
 	proxies := make([]bus.Proxy, n)
 	errs := make([]error, n)
 	kinds := make([]int, n)
@@ -294,7 +297,10 @@ func c19Full(multiHomed bool) {
 		// goroutines ask for the multi-homed service (its first connection)
 		kinds[i] = 2
 		if !multiHomed {
-			kinds[i] = sym.Choose("request-kind", 2)
+			kinds[i] = 0
+			if n == 2 {
+				kinds[i] = sym.Choose("request-kind", 2)
+			}
 		}
 		go func(i int) {
 			switch kinds[i] {
@@ -322,7 +328,7 @@ func c19Full(multiHomed bool) {
 		}
 	}
 	want := 1
-	if kinds[0] == 2 || kinds[1] == 2 {
+	if kinds[0] == 2 {
 		want = 2 // the directory's address and the alias
 	}
 	s.pollMutex.RLock()
